@@ -5,3 +5,4 @@ import XV.Props.C20
 import XV.Props.C18
 import XV.Props.C13
 import XV.Props.C02
+import XV.Props.C09
